@@ -1,6 +1,10 @@
 (** Executable model of federation/executor.go (extractKeys as repaired and as it was, runOnService's
     sub-query construction, stitching result i into target i, deleteKey), of a federated service answering a
-    (normalised) sub-query, and the reference semantics of a query on one combined server.  Definitions only. *)
+    (normalised) sub-query, and the reference semantics of a query on one combined server.  Definitions only.
+
+    All functions of the gateway side are structurally recursive (on the query, on the plan, on the path and
+    the result tree); only the reference semantics [eval_ref], which re-groups selections by alias at every
+    level, carries fuel. *)
 From Coq Require Import List String Bool Arith ZArith.
 From Thunder Require Import Lib.Json Federation.Merge Federation.Normalize Federation.Planner.
 Import ListNotations.
@@ -11,7 +15,8 @@ Open Scope list_scope.
 Inductive aval : Type :=
 | ANull
 | AScalar (j : json)
-| ARef (ty : string) (id : Z)       (* an object of a catalogue type; for a union field: the member *)
+| ARef (ty : string) (id : Z)       (* result of an object-typed field: an object of a catalogue type *)
+| AURef (ty : string) (id : Z)      (* result of a union-typed field: the member type and the object *)
 | AList (l : list aval)
 | ALeaf (val : Z) (tag : string).   (* a plain (non-federated) object with fields val, tag *)
 
@@ -20,7 +25,6 @@ Record world := mk_world {
   w_org : string -> Z -> Z
 }.
 
-(** * A service (or the monolith) answering a normalised selection set *)
 Definition leaf_obj (val : Z) (tag : string) (sels : list node) : json :=
   JObj (List.concat (map (fun n => match n with
                                    | NField al nm _ _ _ _ _ =>
@@ -31,89 +35,91 @@ Definition leaf_obj (val : Z) (tag : string) (sels : list node) : json :=
                                    | _ => []
                                    end) sels)).
 
+(** * A service (or the combined server) answering a normalised selection set *)
 Section Eval.
   Variable w : world.
-  Variable g : gschema.
+  Variable keyed : string -> bool.   (* objects registered with Key("id"): their results carry __key *)
 
-  Definition keyed (ty : string) : bool := existsb (String.eqb ty) (g_keyed g).
+  Definition key_kv (ty : string) (id : Z) : list (string * json) :=
+    if keyed ty then [("__key", JNum id)] else [].
 
-  (** [eval_obj fuel ty id sels]: fields only (an object level of a normalised query).
-      Union values: the fragment of the member, with the union-level __typename selections pushed into it as
-      graphql.PrepareQuery does (the executor then groups by alias, so an alias already in the fragment is kept
-      once); no fragment for the member renders null (graphql/batch_executor.go:404-418). *)
-  Fixpoint eval_obj (fuel : nat) (ty : string) (id : Z) (sels : list node) {struct fuel} : option json :=
-    match fuel with
-    | O => None
-    | S fuel' =>
+  (** [ev n ty id]: the entry selection [n] contributes to the result object of object (ty, id).
+      Union values: the fragment of the member, with the union-level field selections (__typename) pushed into
+      it as graphql.PrepareQuery does (an alias already in the fragment is kept once); no fragment for the
+      member renders null (graphql/batch_executor.go:404-418). *)
+  Fixpoint ev (n : node) (ty : string) (id : Z) {struct n} : list (string * json) :=
+    match n with
+    | NFrag _ _ _ => []
+    | NField al nm _ ak _ _ subs =>
+        let obj := fun (t : string) (i : Z) => JObj (key_kv t i ++ flat_map (fun x => ev x t i) subs) in
+        let uobj := fun (t : string) (i : Z) =>
+          (fix pick (l : list node) : json :=
+             match l with
+             | [] => JNull
+             | NFrag on _ body :: r =>
+                 if String.eqb on t then
+                   JObj (key_kv t i ++ flat_map (fun x => ev x t i) body ++
+                         flat_map (fun x => if is_field x && negb (existsb (String.eqb (n_alias x)) (map n_alias body))
+                                            then ev x t i else []) subs)
+                 else pick r
+             | _ :: r => pick r
+             end) subs in
         let render :=
-          fix render (v : aval) (rty : rtype) (subs : list node) {struct v} : option json :=
+          fix render (v : aval) : json :=
             match v with
-            | ANull => Some JNull
-            | AScalar j => Some j
-            | AList l => option_map JArr (mapo (fun x => render x rty subs) l)
-            | ALeaf val tag => Some (leaf_obj val tag subs)
-            | ARef t i =>
-                match rty with
-                | RUnion _ =>
-                    match find (fun n => match n with NFrag on _ _ => String.eqb on t | _ => false end) subs with
-                    | Some (NFrag _ _ body) => eval_obj fuel' t i (dedupe_alias [] (body ++ fields_of subs))
-                    | _ => Some JNull
-                    end
-                | _ => eval_obj fuel' t i subs
-                end
+            | ANull => JNull
+            | AScalar j => j
+            | AList l => JArr (map render l)
+            | ALeaf val tag => leaf_obj val tag subs
+            | ARef t i => obj t i
+            | AURef t i => uobj t i
             end in
-        match mapo (fun n =>
-                match n with
-                | NField al nm _ ak _ _ subs =>
-                    if String.eqb nm "__typename" then Some (al, JStr ty)
-                    else if String.eqb nm federation_field then
-                      option_map (pair al) (eval_obj fuel' ty id subs)
-                    else if String.eqb ty "Query" then
-                      match find_gfield g ty nm with
-                      | Some (rty, _) => option_map (pair al) (render (w_value w ty id nm ak) rty subs)
-                      | None => None
-                      end
-                    else if String.eqb nm "id" then Some (al, JNum id)
-                    else if String.eqb nm "org" then Some (al, JNum (w_org w ty id))
-                    else
-                      match find_gfield g ty nm with
-                      | Some (rty, _) => option_map (pair al) (render (w_value w ty id nm ak) rty subs)
-                      | None => None
-                      end
-                | NFrag _ _ _ => None
-                end) sels with
-        | Some kvs => Some (JObj (if keyed ty then ("__key", JNum id) :: kvs else kvs))
-        | None => None
-        end
+        [(al,
+          if String.eqb nm "__typename" then JStr ty
+          else if String.eqb nm federation_field then obj ty id
+          else if String.eqb ty "Query" then render (w_value w ty id nm ak)
+          else if String.eqb nm "id" then JNum id
+          else if String.eqb nm "org" then JNum (w_org w ty id)
+          else render (w_value w ty id nm ak))]
     end.
+
+  Definition eval_obj (ty : string) (id : Z) (sels : list node) : json :=
+    JObj (key_kv ty id ++ flat_map (fun n => ev n ty id) sels).
 End Eval.
 
 (** * extractKeys (executor.go:268-328) and the stitching of executor.go:385-404 *)
-Fixpoint extract_keys (repaired : bool) (fuel : nat) (node : json) (path : list step) : option (list json) :=
-  match fuel with
-  | O => None
-  | S fuel' =>
-      match node with
-      | JNull =>
-          if repaired then Some []
-          else match path with [] => None | _ => Some [] end
-      | JArr l => concat_opt (map (fun e => extract_keys repaired fuel' e path) l)
-      | JObj kvs =>
-          match path with
-          | [] => match lookup federation_field kvs with Some k => Some [k] | None => None end
-          | SField name :: rest =>
-              match lookup name kvs with
-              | None => None
-              | Some next => extract_keys repaired fuel' next rest
-              end
-          | SType t :: rest =>
-              match lookup "__typename" kvs with
-              | Some (JStr s) => if String.eqb s t then extract_keys repaired fuel' node rest else Some []
-              | _ => None
-              end
-          end
-      | _ => match path with [] => None | _ => Some [] end
-      end
+Fixpoint extract_keys (repaired : bool) (path : list step) {struct path} : json -> option (list json) :=
+  match path with
+  | [] =>
+      fix arr (node : json) : option (list json) :=
+        match node with
+        | JArr l => concat_opt (map arr l)
+        | JNull => if repaired then Some [] else None
+        | JObj kvs => match lookup federation_field kvs with Some k => Some [k] | None => None end
+        | _ => None
+        end
+  | SField name :: rest =>
+      fix arr (node : json) : option (list json) :=
+        match node with
+        | JArr l => concat_opt (map arr l)
+        | JObj kvs =>
+            match lookup name kvs with
+            | None => None
+            | Some next => extract_keys repaired rest next
+            end
+        | _ => Some []
+        end
+  | SType t :: rest =>
+      fix arr (node : json) : option (list json) :=
+        match node with
+        | JArr l => concat_opt (map arr l)
+        | JObj kvs =>
+            match lookup "__typename" kvs with
+            | Some (JStr s) => if String.eqb s t then extract_keys repaired rest node else Some []
+            | _ => None
+            end
+        | _ => Some []
+        end
   end.
 
 (** merging one sub-result into its target object (executor.go:395-403) *)
@@ -135,57 +141,114 @@ Fixpoint set_key (k : string) (v : json) (l : list (string * json)) : list (stri
 
 (** [graft]: walk exactly as extractKeys does and merge the next sub-result into each target met; returns the
     new tree and the unused results. *)
-Fixpoint graft (fuel : nat) (node : json) (path : list step) (rs : list json) : option (json * list json) :=
-  match fuel with
-  | O => None
-  | S fuel' =>
-      match node with
-      | JNull => Some (JNull, rs)
-      | JArr l =>
-          match (fix go (l : list json) (rs : list json) {struct l} : option (list json * list json) :=
-                   match l with
-                   | [] => Some ([], rs)
-                   | e :: t =>
-                       match graft fuel' e path rs with
-                       | Some (e', rs') =>
-                           match go t rs' with
-                           | Some (t', rs'') => Some (e' :: t', rs'')
-                           | None => None
-                           end
-                       | None => None
-                       end
-                   end) l rs with
-          | Some (l', rs') => Some (JArr l', rs')
-          | None => None
-          end
-      | JObj kvs =>
-          match path with
-          | [] =>
-              match rs with
-              | JObj r :: rs' =>
-                  match merge_result kvs r with
-                  | Some kvs' => Some (JObj kvs', rs')
-                  | None => None
-                  end
-              | _ => None
-              end
-          | SField name :: rest =>
-              match lookup name kvs with
-              | None => None
-              | Some next =>
-                  match graft fuel' next rest rs with
-                  | Some (next', rs') => Some (JObj (set_key name next' kvs), rs')
-                  | None => None
-                  end
-              end
-          | SType t :: rest =>
-              match lookup "__typename" kvs with
-              | Some (JStr s) => if String.eqb s t then graft fuel' node rest rs else Some (node, rs)
-              | _ => None
-              end
-          end
-      | _ => Some (node, rs)
-      end
+Section GraftList.
+  Variable one : json -> list json -> option (json * list json).
+  Fixpoint graft_list (l : list json) (rs : list json) {struct l} : option (list json * list json) :=
+    match l with
+    | [] => Some ([], rs)
+    | e :: t =>
+        match one e rs with
+        | Some (e', rs') =>
+            match graft_list t rs' with
+            | Some (t', rs'') => Some (e' :: t', rs'')
+            | None => None
+            end
+        | None => None
+        end
+    end.
+End GraftList.
+
+Fixpoint graft (path : list step) {struct path} : json -> list json -> option (json * list json) :=
+  match path with
+  | [] =>
+      fix arr (node : json) (rs : list json) {struct node} : option (json * list json) :=
+        match node with
+        | JArr l =>
+            match (fix go (l : list json) (rs : list json) {struct l} : option (list json * list json) :=
+                     match l with
+                     | [] => Some ([], rs)
+                     | e :: t =>
+                         match arr e rs with
+                         | Some (e', rs') =>
+                             match go t rs' with
+                             | Some (t', rs'') => Some (e' :: t', rs'')
+                             | None => None
+                             end
+                         | None => None
+                         end
+                     end) l rs with
+            | Some (l', rs') => Some (JArr l', rs')
+            | None => None
+            end
+        | JObj kvs =>
+            match rs with
+            | JObj r :: rs' =>
+                match merge_result kvs r with
+                | Some kvs' => Some (JObj kvs', rs')
+                | None => None
+                end
+            | _ => None
+            end
+        | _ => Some (node, rs)
+        end
+  | SField name :: rest =>
+      fix arr (node : json) (rs : list json) {struct node} : option (json * list json) :=
+        match node with
+        | JArr l =>
+            match (fix go (l : list json) (rs : list json) {struct l} : option (list json * list json) :=
+                     match l with
+                     | [] => Some ([], rs)
+                     | e :: t =>
+                         match arr e rs with
+                         | Some (e', rs') =>
+                             match go t rs' with
+                             | Some (t', rs'') => Some (e' :: t', rs'')
+                             | None => None
+                             end
+                         | None => None
+                         end
+                     end) l rs with
+            | Some (l', rs') => Some (JArr l', rs')
+            | None => None
+            end
+        | JObj kvs =>
+            match lookup name kvs with
+            | None => None
+            | Some next =>
+                match graft rest next rs with
+                | Some (next', rs') => Some (JObj (set_key name next' kvs), rs')
+                | None => None
+                end
+            end
+        | _ => Some (node, rs)
+        end
+  | SType t :: rest =>
+      fix arr (node : json) (rs : list json) {struct node} : option (json * list json) :=
+        match node with
+        | JArr l =>
+            match (fix go (l : list json) (rs : list json) {struct l} : option (list json * list json) :=
+                     match l with
+                     | [] => Some ([], rs)
+                     | e :: t =>
+                         match arr e rs with
+                         | Some (e', rs') =>
+                             match go t rs' with
+                             | Some (t', rs'') => Some (e' :: t', rs'')
+                             | None => None
+                             end
+                         | None => None
+                         end
+                     end) l rs with
+            | Some (l', rs') => Some (JArr l', rs')
+            | None => None
+            end
+        | JObj kvs =>
+            match lookup "__typename" kvs with
+            | Some (JStr s) => if String.eqb s t then graft rest node rs else Some (node, rs)
+            | _ => None
+            end
+        | _ => Some (node, rs)
+        end
   end.
 
 (** deleteKey (executor.go:416-428) *)
@@ -200,12 +263,12 @@ Fixpoint delete_key (k : string) (j : json) : json :=
   | _ => j
   end.
 
-Definition fuel_of (j : json) (path : list step) : nat := jsize j + List.length path + 1.
-
 Section Exec.
   Variable w : world.
   Variable g : gschema.
   Variable repaired : bool.   (* extractKeys with the nil check *)
+
+  Definition keyed (ty : string) : bool := existsb (String.eqb ty) (g_keyed g).
 
   (** the key the gateway sends to [svc]: the federated keys of that service only (executor.go:181-203) *)
   Definition restrict_key (ty svc : string) (key : json) : json :=
@@ -222,59 +285,63 @@ Section Exec.
     end.
 
   (** runOnService + the service's answer *)
-  Definition run_on_service (efuel : nat) (p : plan) (keys : option (list json)) : option (list json) :=
+  Definition run_on_service (svc ty : string) (sels : list node) (keys : option (list json)) : option (list json) :=
     match keys with
-    | None => option_map (fun r => [r]) (eval_obj w g efuel "Query" 0%Z (p_sels p))
-    | Some [] => Some []
+    | None => Some [eval_obj w keyed "Query" 0%Z sels]
     | Some ks =>
-        mapo (fun k => match key_id (restrict_key (p_type p) (p_service p) k) with
-                          | Some id => eval_obj w g efuel (p_type p) id (p_sels p)
-                          | None => None
-                          end) ks
+        mapo (fun k => match key_id (restrict_key ty svc k) with
+                       | Some id => Some (eval_obj w keyed ty id sels)
+                       | None => None
+                       end) ks
     end.
+
+  (** one sub-plan stitched into the current results (executor.go:356-406) *)
+  Definition stitch (run_sub : option (list json) -> option (list json)) (is_coordinator : bool)
+             (path : list step) (cur : list json) : option (list json) :=
+    if is_coordinator then
+      match cur, run_sub None with
+      | [JObj target], Some [JObj r] =>
+          match merge_result target r with Some t' => Some [JObj t'] | None => None end
+      | _, _ => None
+      end
+    else
+      let tree := JArr cur in
+      match extract_keys repaired path tree with
+      | None => None
+      | Some ks =>
+          match run_sub (Some ks) with
+          | None => None
+          | Some rs =>
+              if negb (Nat.eqb (List.length rs) (List.length ks)) then None else
+              match graft path tree rs with
+              | Some (JArr cur', []) => Some cur'
+              | _ => None
+              end
+          end
+      end.
 
   (** Executor.execute (executor.go:330-414); sub-plans are stitched one after the other (they run in
       parallel in Go and write disjoint keys, or fail) *)
-  Fixpoint exec_plan (fuel efuel : nat) (p : plan) (keys : option (list json)) {struct fuel} : option (list json) :=
-    match fuel with
-    | O => None
-    | S fuel' =>
-        let own := if String.eqb (p_service p) coordinator then Some [JObj []] else run_on_service efuel p keys in
+  Fixpoint exec_plan (p : plan) (keys : option (list json)) {struct p} : option (list json) :=
+    match p with
+    | Plan _ svc ty sels after =>
+        let coord := String.eqb svc coordinator in
+        let own := if coord then Some [JObj []] else run_on_service svc ty sels keys in
         match own with
         | None => None
         | Some res =>
-            fold_left (fun acc sub =>
-              match acc with
-              | None => None
-              | Some cur =>
-                  if String.eqb (p_service p) coordinator then
-                    match cur, exec_plan fuel' efuel sub None with
-                    | [JObj target], Some [JObj r] =>
-                        match merge_result target r with Some t' => Some [JObj t'] | None => None end
-                    | _, _ => None
-                    end
-                  else
-                    let tree := JArr cur in
-                    match extract_keys repaired (fuel_of tree (p_path sub)) tree (p_path sub) with
-                    | None => None
-                    | Some ks =>
-                        match exec_plan fuel' efuel sub (Some ks) with
-                        | None => None
-                        | Some rs =>
-                            if negb (Nat.eqb (List.length rs) (List.length ks)) then None else
-                            match graft (fuel_of tree (p_path sub)) tree (p_path sub) rs with
-                            | Some (JArr cur', []) => Some cur'
-                            | _ => None
-                            end
-                        end
-                    end
-              end) (p_after p) (Some res)
+            (fix go (l : list plan) (cur : list json) {struct l} : option (list json) :=
+               match l with
+               | [] => Some cur
+               | sub :: t =>
+                   match stitch (exec_plan sub) coord (p_path sub) cur with
+                   | Some cur' => go t cur'
+                   | None => None
+                   end
+               end) after res
         end
     end.
 End Exec.
-
-Fixpoint plan_depth (p : plan) : nat :=
-  S (fold_right (fun x d => Nat.max (plan_depth x) d) 0 (p_after p)).
 
 (** The whole gateway: normalise, plan, execute, delete the _federation keys (Executor.Execute). *)
 Definition fed_exec (w : world) (g : gschema) (pick : list string -> option string)
@@ -284,7 +351,7 @@ Definition fed_exec (w : world) (g : gschema) (pick : list string -> option stri
   | Some (Some flat) =>
       match plan_root g pick fuel flat with
       | Some p =>
-          match exec_plan w g repaired (plan_depth p + 1) fuel p None with
+          match exec_plan w g repaired p None with
           | Some [r] => Some (delete_key federation_field r)
           | _ => None
           end
@@ -293,22 +360,32 @@ Definition fed_exec (w : world) (g : gschema) (pick : list string -> option stri
   | _ => None
   end.
 
-(** * Reference semantics: one combined server (GraphQL CollectFields / ExecuteSelectionSet) *)
-Fixpoint collect (g : gschema) (obj : string) (n : node) {struct n} : list node :=
+(** * Reference semantics: one combined server.
+    GraphQL's CollectFields / ExecuteSelectionSet: collect the fields of the selection set that apply to the
+    object (fragments inlined, @skip/@include honoured), group them by response key, concatenate the
+    sub-selections of a group, execute the group once.  The result is an object, i.e. a map: the order in which
+    fields are collected does not matter for it; [collect] visits a selection set's own fields before its
+    fragments' (the order flattenFragments uses).  [tn = true] is the same semantics with __typename reported
+    on every object reached through a union-typed field (what the gateway's answer always carries). *)
+Definition incl_field (n : node) : bool :=
+  match n with NField _ _ _ _ dirs _ _ => should_include dirs | NFrag _ _ _ => false end.
+
+Fixpoint collect_frag (g : gschema) (obj : string) (n : node) {struct n} : list node :=
   match n with
-  | NField _ _ _ _ dirs _ _ => if should_include dirs then [n] else []
+  | NField _ _ _ _ _ _ _ => []
   | NFrag on dirs subs =>
       if should_include dirs then
         match applies g obj on with
-        | Some true => List.concat (map (collect g obj) subs)
+        | Some true => filter incl_field subs ++ List.concat (map (collect_frag g obj) subs)
         | _ => []
         end
       else []
   end.
-Definition collect_all (g : gschema) (obj : string) (l : list node) : list node :=
-  List.concat (map (collect g obj) l).
 
-(** group by alias in order of first occurrence; sub-selections of one alias are concatenated *)
+Definition collect_all (g : gschema) (obj : string) (l : list node) : list node :=
+  filter incl_field l ++ List.concat (map (collect_frag g obj) l).
+
+(** group by response key in order of first occurrence; sub-selections of one key are concatenated *)
 Fixpoint group_alias (l : list node) : list (string * (node * list node)) :=
   match l with
   | [] => []
@@ -324,7 +401,10 @@ Fixpoint group_alias (l : list node) : list (string * (node * list node)) :=
 Section Ref.
   Variable w : world.
   Variable g : gschema.
+  Variable tn : bool.
 
+  (** fuel: one unit per object level, one more for the step from a union value to its member (mirrors the
+      two levels [flatten] spends there); [None] only when the fuel runs out *)
   Fixpoint eval_ref (fuel : nat) (ty : string) (id : Z) (sels : list node) {struct fuel} : option json :=
     match fuel with
     | O => None
@@ -337,6 +417,16 @@ Section Ref.
             | AList l => option_map JArr (mapo (fun x => render x subs) l)
             | ALeaf val tag => Some (leaf_obj val tag (map (fun e => fst (snd e)) (group_alias (collect_all g "Leaf" subs))))
             | ARef t i => eval_ref fuel' t i subs
+            | AURef t i =>
+                match fuel' with
+                | O => None
+                | S fuel'' =>
+                    match eval_ref fuel'' t i subs with
+                    | Some (JObj kvs) =>
+                        Some (JObj (if tn && negb (has_key "__typename" kvs) then kvs ++ [("__typename", JStr t)] else kvs))
+                    | other => other
+                    end
+                end
             end in
         match mapo (fun e =>
                 let '(al, (n, subs)) := e in
@@ -349,7 +439,7 @@ Section Ref.
                     else option_map (pair al) (render (w_value w ty id nm ak) subs)
                 | NFrag _ _ _ => None
                 end) (group_alias (collect_all g ty sels)) with
-        | Some kvs => Some (JObj (if keyed g ty then ("__key", JNum id) :: kvs else kvs))
+        | Some kvs => Some (JObj (key_kv (keyed g) ty id ++ kvs))
         | None => None
         end
     end.
